@@ -9,6 +9,7 @@ from ..lib import coqrun, driver, env, proofs, report
 
 PROP = "C09"
 PROP_BITS = (1, 2, 3, 4, 5)   # structure / ultrametric / clades / splits / path sums, on implementation outputs
+CORR_BITS = (0, 6)            # model vs implementation; premise of the partial NJ theorem on the model's own run
 
 
 def corpus_cases():
@@ -41,7 +42,8 @@ def main(tier, seed):
         for name, cases in streams(tier, seed):
             if not cases:
                 continue
-            st = driver.run_stream(run, tb, cases, d, name, "tb_case", "tb_case_code", PROP_BITS, shard=150)
+            st = driver.run_stream(run, tb, cases, d, name, "tb_case", "tb_case_code", PROP_BITS,
+                                   corr_bits=CORR_BITS, shard=150)
             total_prop += st["prop_fail"] + st["impl_errors"]
             dist = run.coverage["streams"][name]["distribution"]
             rejected += dist.get("nj_rejected_by_margin_filter", 0)
